@@ -104,7 +104,12 @@ theorem marshalDocument_eq' (doc : Document) (hdom : ∀ r ∈ docResources doc,
   unfold marshalDocument Spec.documentTree Spec.dataMember
   simp only [docResources, docPrimary] at hdom
   cases data with
-  | other => exact ⟨default, by simp⟩
+  | other =>
+    refine ⟨{ data := DocData.other,
+              included := if included.isEmpty then [] else sortById included,
+              links := links, relData := relData,
+              dmeta := dmeta, errors := errors, prePath := prePath }, ?_⟩
+    cases hE : errors.isEmpty <;> simp
   | ident id typ =>
     try simp only []
     apply Exists.elim (incRes_eq included (fun r => Spec.resourceObject r prePath
@@ -373,13 +378,17 @@ def docMembers (doc : Document) (fields : GoMap (List GoString)) (selfHref : GoS
     [(K.links, Json.obj (sortMembers (docLinks doc selfHref))),
      (K.jsonapi, Json.obj [(K.version, .str K.v10)])]
 
+theorem ite_none_some {α} {c : Prop} [Decidable c] {x t : α}
+    (h : (if c then none else some x) = some t) : t = x := by
+  split at h
+  · cases h
+  · cases h; rfl
+
 theorem documentTree_some {doc : Document} {fields : GoMap (List GoString)} {selfHref : GoString}
     {t : Json} (h : Spec.documentTree doc fields selfHref = some t) :
     t = .obj (sortMembers (docMembers doc fields selfHref)) := by
   unfold Spec.documentTree at h
-  split at h
-  · cases h
-  · cases h; rfl
+  exact ite_none_some h
 
 theorem docBody_keys (doc : Document) (fields : GoMap (List GoString)) :
     (docBody doc fields).map (·.1) = [K.errors] ∨ (docBody doc fields).map (·.1) = [K.data] ∨
